@@ -358,7 +358,7 @@ func (r *fileRowReader) getRow() *Row {
 	row := r.row
 	if row == nil || !r.reuseRow {
 		row = &Row{
-			ValuesByPosition: make([]TypedValue, len(r.colPosBySelector)),
+			ValuesByPosition: make([]TypedValue, len(r.colTypes)),
 			ValuesBySelector: make(map[string]TypedValue, len(r.colPosBySelector)),
 		}
 		r.row = row
